@@ -93,7 +93,7 @@ def recheck_property_file(pid):
         if b.startswith('Closed under'):
             assum[name] = []
         else:
-            ax = re.findall(r'^([A-Za-z0-9_.\']+)\s*:', b, re.M)
+            ax = re.findall(r'^([A-Za-z0-9_.\']+)\s*:', b.split('\n', 1)[1] if '\n' in b else '', re.M)
             assum[name] = ax
     err = None
     if len(blocks) < len(thms):
@@ -296,7 +296,11 @@ def main():
             # ---- 3. triage of failures: shrink, known findings, replay files
             known = load_known(pid)
             seen_sig = set()
+            per_clause = {}
             for case, fail in failures[:40]:
+                per_clause[fail.get('clause')] = per_clause.get(fail.get('clause'), 0) + 1
+                if per_clause[fail.get('clause')] > 3:
+                    continue
                 kf = None
                 if hasattr(mod, 'match_known'):
                     kf = mod.match_known(case, fail, known)
